@@ -64,7 +64,8 @@ def run_real_program(spec, ops):
                 eref = None
             # a frame without features and target has nothing PyTorch could bounds-check an index list against:
             # the outcome of an out-of-range index list is not specified there (model comparison only)
-            if eref is None and not spec['feats'] and spec['y'] is None and ix['t'] in ('int', 'list'):
+            if eref is None and not spec['feats'] and spec['y'] is None and (ix['t'] in ('int', 'list')
+                                                                               or spec['num_rows'] is None):
                 ref = None
             elif (eref is None) != (new is None):
                 findings.append((k, 'raises where the list selection is defined' if new is None
